@@ -108,9 +108,18 @@ def gen_case(rng, tier):
     installed = sorted(rng.sample(ALL_LOCALES, rng.choice([0, 1, 2, 3])))
     threads = []
     # some runs make every thread work on the same family of functions (same lazily built state, same globals)
-    family = rng.choice(sorted(FAMILIES)) if rng.random() < 0.3 else None
+    family = rng.choice(sorted(FAMILIES) + ['collation', 'collation']) if rng.random() < 0.35 else None
     for _ in range(nthreads):
-        threads.append([gen_eval(rng, installed, family) for _ in range(rng.choice([1, 1, 2, 3] if thorough else [1, 1, 2]))])
+        prog = []
+        for _j in range(rng.choice([1, 1, 2, 3] if thorough else [1, 1, 2])):
+            if family == 'collation':
+                # every thread switches the process locale: contention on the collation lock
+                loc = rng.choice((installed or ['C.UTF-8']) + ['C', 'C.UTF-8', 'POSIX'])
+                prog.append({'expr': rng.choice(COLLATION_EXPRS) % loc, 'v': '3.1', 'doc': 0, 'lazy': rng.random() < 0.3,
+                             'tz': None})
+            else:
+                prog.append(gen_eval(rng, installed, family))
+        threads.append(prog)
     strat = rng.choice([{'kind': 'uniform', 'p': rng.choice([0.001, 0.005, 0.02, 0.1])},
                         {'kind': 'uniform', 'p': rng.choice([0.001, 0.005, 0.02, 0.1])},
                         {'kind': 'pct', 'depth': rng.choice([1, 2, 3]), 'estimated_steps': rng.choice([1500, 4000, 10000])},
